@@ -155,6 +155,17 @@ CHECKS = {
         note='Trusted: my transcription of the RFCs; harness/wire_dns.py. Two recorded findings are pinned by existing tests '
              '(odd-length key tag, Ed448 key of 56 octets).',
         technique='independent TLA+ reference encoder and key tag evaluated by TLC on recorded and generated records'),
+    'C09': dict(
+        category='model_checking',
+        text='StartTlsWire.tla encodes the MySQL packet / HandshakeV10 / SSLRequest, TPKT, X.224 CR/CC, RDP_NEG_REQ/RSP, OpenVPN '
+             'control packets and TCP wrapper, PostgreSQL SSLRequest and the LDAP StartTLS messages (DER) from their protocol '
+             'documents. TLC compares compose() of corpus objects, field variations and generated messages (flag subsets, '
+             'auth-plugin data lengths, 0..255 acknowledgements, every LDAP result code) with the reference, checks that parsing '
+             'gives the values back and that the parsed object has the message type that is on the wire, also when request '
+             'bytes are given to the confirm/response class and vice versa.',
+        design_ref='6/C09',
+        note='Trusted: my transcription of the protocol documents; harness/wire_starttls.py; native order = little endian.',
+        technique='independent TLA+ reference encoder evaluated by TLC on recorded and generated messages'),
 }
 
 NOT_APPLICABLE = {}
